@@ -3,12 +3,17 @@ C15 — distribution representations agree and respect image symmetries.
 
 proofs : lean/PyAbel/Props/C15.lean (cos^n ↔ cos^n sin^m identity for up to five terms over any commutative ring;
          exact Legendre tables for orders 0..8 with and without odd terms, decided by the kernel; weight scaling and
-         zero-weight pixels on the algebraic core of Distributions)
+         zero-weight pixels on the algebraic core of Distributions); lean/PyAbel/Props/C15Mirror.lean (on the same core: the
+         result of a radial bin depends only on the multiset of its pixel contributions — pixel order, storage layout and
+         the left-right mirror are immaterial; the top-bottom mirror flips the sign of the odd terms for 1, 2 and 3 angular
+         terms; weight scaling for 3 terms)
 K      : the conversion matrices used by Results.cossin() / harmonics() vs the exact Lean tables; cossin / harmonics / Ibeta
          of random coefficient arrays vs the model matrices
 S      : all representations evaluate to the same angular function at random θ; I = 4πr²P0, β_n = P_n/P0 (window 1) and the
          moving average for windows > 1; invariances of Distributions results: left-right mirror, top-bottom mirror (odd
-         orders change sign), weight scaling, zero-weight pixels, origin as tuple / negative / string, larger rmax
+         orders change sign), weight scaling, zero-weight pixels, origin as tuple / negative / string, larger rmax — on interior
+         origins and on origins in a corner / on an edge (no folding), with and without weights, up to rmax='all', and for
+         the same pixels stored column-major
 """
 import json
 from fractions import Fraction
@@ -254,6 +259,7 @@ def run(tier):
     ck.cov["unproved_clauses"] = ["mirror / origin-form / larger-rmax invariances (measured)", "weight scaling for three angular terms (measured)"]
     ck.cov["source_fingerprint"] = source_fingerprint(["abel/tools/vmi.py"])
     ck.proofs("PyAbel.Props.C15")
+    ck.proofs("PyAbel.Props.C15Mirror")
     ok, log = ensure_driver()
     if ok:
         correspondence(ck, tier)
